@@ -1,6 +1,9 @@
 package c14
 
-import "io"
+import (
+	"io"
+	"sync/atomic"
+)
 
 // maxEOFReads is the number of reads answered with io.EOF after which a decode is
 // aborted as non-terminating (a decoder that keeps polling a finished stream).
@@ -11,17 +14,18 @@ type eofPoll struct{ reads int }
 
 // cutReader is the least capable io.Reader over a prefix (no ReadByte, no Seek, no
 // WriteTo), so a decoder cannot learn the length up front. It counts how often it is
-// asked again after it has reported end of input.
+// asked again after it has reported end of input; the read counter is the logical clock
+// of the stall detector.
 type cutReader struct {
 	data     []byte
 	off      int
 	eofReads int // reads answered with io.EOF (the first one is the legitimate notification)
-	reads    int
+	reads    atomic.Int64
 	chunks   []int // when set: read k delivers at most chunks[k % len] bytes (short reads)
 }
 
 func (r *cutReader) Read(p []byte) (int, error) {
-	r.reads++
+	k := r.reads.Add(1)
 	if r.off >= len(r.data) {
 		if len(p) == 0 {
 			return 0, nil
@@ -33,8 +37,8 @@ func (r *cutReader) Read(p []byte) (int, error) {
 		return 0, io.EOF
 	}
 	if len(r.chunks) > 0 {
-		if k := r.chunks[(r.reads-1)%len(r.chunks)]; k < len(p) {
-			p = p[:k]
+		if c := r.chunks[int(k-1)%len(r.chunks)]; c < len(p) {
+			p = p[:c]
 		}
 	}
 	n := copy(p, r.data[r.off:])
